@@ -1,7 +1,7 @@
 #!/bin/sh
 # mutant_batch.sh Cxx...   evaluate m1/m2 of each listed agent output dir: target check first, all checks if missed
 for p in "$@"; do
-  for m in m1 m2; do
+  for m in m1 m2 m3 m4 m5 m6; do
     [ -f /tmp/wt/$p-out/$m.diff ] || continue
     [ -f /verif/seeded/$p-$m/meta.json ] && continue
     python3 /verif/bin/mutant.py /tmp/wt/$p-out $m $p $p > /tmp/mut-$p-$m.log 2>&1
